@@ -33,13 +33,15 @@ TEXT = {
             "and mixed arity) checked against coordinate-set algebra, payload identity (is), fresh defaults, masks, "
             "re-iteration and operand/rank-list immutability; all pairs of leaf fibers over shape<=2 (quick) or <=3 "
             "(thorough) enumerated completely.",
-            "Trusts the builders and the per-coordinate state model; shapes<=7, k<=4; U format only on owned fibers."),
+            "Trusts the builders and the per-coordinate state model; shapes<=7, k<=4; U format on owned fibers and on unowned "
+            "leaf fibers; a default per operand."),
     "C05": ("Hypothesis PBT: populate loops with generated body plans vs a content-override model, observed at every yield",
             "Generated destination/source pairs of depth 1-3 (every destination route, source format C/U, explicit defaults, "
             "empty sub-fibers) and loop-body plans; offered sequence, payload/reference identity, content override, "
             "leftover elements, untouched elements, source immutability, well-formedness and rank consistency at every "
             "yield and after the loop.",
-            "Source and destination share depth/shape/default; unowned destinations depth<=2; start_pos only 1-level."),
+            "Source and destination share depth and shape (defaults may differ); unowned destinations depth<=2; start_pos only "
+            "1-level; lazy sources (& | ^ - project) in a one-level part."),
     "C06": ("Hypothesis PBT + exhaustive dataflow enumeration: dense einsum oracle, metamorphic equality across dataflows",
             "Generated einsum-like kernels (1-3 operands, 1-3 indices) interpreted strictly in the library idiom under 2-4 "
             "drawn dataflows (loop order, uniform tiling, nested / flat two-finger or leader-follower intersection); 13 "
@@ -51,7 +53,8 @@ TEXT = {
             "Generated fibers (leaf / 2-level, C / U format, active ranges, explicit defaults) with 1-5 traversal requests "
             "each, covering all iterators, reference forms, dense co-iteration, project / prune and lazy re-iteration, "
             "compared with a list model; tree snapshots before/after.",
-            "Trusts the builders; start_pos restricted to legal shortcuts; U format without custom active range; shapes<=8."),
+            "Trusts the builders; start_pos restricted to legal shortcuts; a U-format fiber gets an active range only if it "
+            "encloses all stored elements; shapes<=8."),
     "C08": ("Hypothesis PBT: partitions recomputed from the element list (boundary / halo / active-range model)",
             "Generated fibers and tensors (depth 1-3, explicit defaults, empty sub-fibers, active ranges) x all six split "
             "kinds x halos x relativeCoords x split depth x optional re-split of the lower rank; fiber level compared "
